@@ -10,9 +10,12 @@ maxtid = b'\x7f' + b'\xff' * 7
 
 
 class MRec:
-    __slots__ = ('oid', 'kind', 'data', 'src_tid', 'refs', 'cls')
+    __slots__ = ('oid', 'kind', 'data', 'src_tid', 'refs', 'cls', 'shadow')
 
     def __init__(self, oid, kind, data, src_tid=None, refs=(), cls=None):
+        self.shadow = False       # kept by a pack only to serve a later
+        #                           back pointer: present in the file and
+        #                           the iterator, not promised to queries
         self.oid = oid
         self.kind = kind          # DATA / BACK / UNCREATE
         self.data = data          # resolved bytes (None for UNCREATE)
@@ -21,8 +24,10 @@ class MRec:
         self.cls = cls
 
     def copy(self):
-        return MRec(self.oid, self.kind, self.data, self.src_tid, self.refs,
-                    self.cls)
+        r = MRec(self.oid, self.kind, self.data, self.src_tid, self.refs,
+                 self.cls)
+        r.shadow = self.shadow
+        return r
 
 
 class MTxn:
@@ -51,8 +56,21 @@ class UndoRefused(Exception):
 
 class Log:
 
+    alt_last = None      # see hist.Driver.verify_pack
+
+    with_shadow = False  # True: shadow records count as revisions
+
     def __init__(self, txns=None):
         self.txns = list(txns or [])
+
+    def has_shadow(self):
+        return any(r.shadow for t in self.txns for r in t.recs)
+
+    def shadow_view(self):
+        m = Log(self.txns)
+        m.with_shadow = True
+        m.alt_last = self.alt_last
+        return m
 
     def copy(self):
         return Log(self.txns)
@@ -77,7 +95,7 @@ class Log:
         out = []
         for t in self.txns:
             r = t.last_recs().get(oid)
-            if r is not None:
+            if r is not None and (self.with_shadow or not r.shadow):
                 out.append((t.tid, r))
         return out
 
